@@ -245,6 +245,49 @@ def task_pairsearch(ctx, arg):
     return dict(violations=violations, searches=searches)
 
 # ---------------------------------------------------------------------------------------------
+# E1: Verus on the mechanically extracted text of the limb layer
+VERUS_PROPS = {'mul': ['C06', 'C07', 'C12', 'C13'], 'sop': ['C06', 'C07', 'C12', 'C13'], 'square': ['C06', 'C07'], 'divrem': ['C13', 'C07'], 'invert': ['C06']}
+
+def task_verus(ctx, unit):
+    import re, tempfile, shutil
+    sys.path.insert(0, os.path.join(VERIF, 'verus'))
+    import run as vrun
+    exp = open(ctx.rustc_dump('expanded')).read()
+    wd = tempfile.mkdtemp(prefix='sm9v_verus_')
+    try:
+        r = vrun.run_unit(unit, exp, wd)
+        full = os.path.join(wd, unit + '_full.rs')
+        names = []
+        if os.path.exists(full):
+            for m in re.finditer(r'^\s*(?:pub )?(?:const )?(proof fn|fn) (\w+)', open(full).read(), re.M):
+                names.append((m.group(2), m.group(1)))
+    finally:
+        shutil.rmtree(wd, ignore_errors=True)
+    props = VERUS_PROPS.get(unit, ['C06'])
+    obligations = []
+    failed_fns = set()
+    for e in r.get('errors', []):
+        m = re.search(r' in fn (\w+)$', e)
+        if m:
+            failed_fns.add(m.group(1))
+    base = dict(engine='E1 Verus 0.2026.09.13 on the extracted text (erasure: %s)' % r.get('erasure'), backend='Z3 (via Verus)', props=props)
+    if r['status'] == 'discharged':
+        for n, kind in names:
+            obligations.append(dict(base, id='verus/%s/%s' % (unit, n), status='discharged', function=n, seconds=round(r['seconds'] / max(1, len(names)), 3),
+                                    detail=('real function body: requires/ensures, loop invariants, overflow and index checks' if n in r.get('functions', []) else ('lemma' if kind == 'proof fn' else 'helper with contract'))))
+    else:
+        tgt = r.get('functions') or [unit]
+        for n in tgt:
+            if r['status'] == 'failed':
+                # Verus ran: functions without an error are verified, those named in an error failed
+                st = 'failed' if (n in failed_fns or not failed_fns) else 'discharged'
+            else:
+                st = 'undecided'
+            obligations.append(dict(base, id='verus/%s/%s' % (unit, n), status=st, function=n, seconds=r.get('seconds', 0),
+                                    detail=(r.get('detail') or '')[:600] + ' [annotation re-attached to the edited text]' * (r.get('erasure') == 'merged')))
+    return dict(obligations=obligations, notes=r.get('notes', []))
+
+# ---------------------------------------------------------------------------------------------
 # E2: Kani on a scratch copy of the real crate
 
 KANI_GROUPS = {
@@ -258,6 +301,8 @@ KANI_GROUPS = {
     'enc': dict(harnesses=['g1_to_slice_layout', 'g1_to_uncompressed_layout', 'g1_to_compressed_layout',
                            'g2_to_slice_layout', 'g2_to_uncompressed_layout', 'g2_to_compressed_layout',
                            'fq12_to_slice_layout', 'fq2_to_slice_layout'], props=['C10', 'C18', 'C11', 'C12', 'C02'], timeout=900),
+    'arkff': dict(harnesses=['ark_add_with_carry_contract', 'ark_sub_with_borrow_contract', 'ark_ord_contract', 'ark_mul2_div2_contract'],
+                  props=['C06', 'C07', 'C13', 'C12'], timeout=900),
     'dispatch': dict(harnesses=['fr_from_slice_dispatch_lo', 'fr_from_slice_dispatch_hi', 'fq_from_slice_dispatch_lo', 'fq_from_slice_dispatch_hi',
                                 'fr_from_hash_total', 'fq_to_big_endian_total'], props=['C13', 'C18'], timeout=1200),
     'canon': dict(harnesses=['u256_mul_canonical', 'u256_square_canonical', 'sum_of_products_2_canonical'], props=['C07', 'C06', 'C12', 'C18'], timeout=3000),
